@@ -170,3 +170,20 @@ def isinstance_heads(test, var: Optional[str] = None) -> List[str]:
                 if d:
                     out.append(d.split(".")[-1])
     return out
+
+
+def modulo_by_mask_sites(root):
+    """`x % ((1 << n) - 1)` / `x % (2 ** n - 1)`: reducing to n bits needs the modulus 2**n (or `& mask`); the
+    all-ones mask as a modulus maps the largest n-bit value to 0"""
+    out = []
+    for n in ast.walk(root):
+        if isinstance(n, ast.BinOp) and isinstance(n.op, ast.Mod):
+            r = n.right
+            if isinstance(r, ast.BinOp) and isinstance(r.op, ast.Sub) and isinstance(r.right, ast.Constant) and r.right.value == 1:
+                l = r.left
+                if isinstance(l, ast.BinOp) and (
+                    (isinstance(l.op, ast.LShift) and isinstance(l.left, ast.Constant) and l.left.value == 1)
+                    or (isinstance(l.op, ast.Pow) and isinstance(l.left, ast.Constant) and l.left.value == 2)
+                ):
+                    out.append(n)
+    return out
